@@ -135,7 +135,9 @@ def affixWordTooLong (od : Options Int) (text : List Int) (w : Int) : Bool :=
     let last : Int := (ws.getLastD []).length
     let np : Int := (toks pre).length
     let ns : Int := (toks suf).length
-    (np > 0 && first + np > w') || (ns > 0 && last + ns > w')
+    -- an empty paragraph, or one of a single word, puts BOTH placeholders into the same unit
+    if ws.length ≤ 1 then (np > 0 || ns > 0) && np + first + ns > w'
+    else (np > 0 && first + np > w') || (ns > 0 && last + ns > w')
 
 def checkNonWsPara (op : String) (od : Options Int) (text out : List Int) (hyphensAdded : Bool) (w : Int := 1000000) : String :=
   let a := (nonWsBy2 od.paraSep od.lineSep text).flatten.map fun r => [r]
